@@ -129,6 +129,13 @@ func (w *world) newStore(cacheKind string, dead bool, freshCfg bool) {
 			[]byte("\xff\xfe"), []byte(`{"a":{"secret":{"Value":"eA==","Version":99999999999},"lastAccess":"5"}}`), []byte(`null`), []byte(`{}`), []byte(` `),
 			[]byte(`{"a":{"secret":{"Value":"eA==","Version":1},"lastAccess":"5"},"a":{"secret":{"Value":"eQ==","Version":2},"lastAccess":"6"}}`),
 		}
+		// a well-formed entry for a name in use next to one entry of the wrong shape: the whole
+		// document must be ignored, not just the bad entry
+		for _, neighbour := range []string{`"":{"secret":{"Value":"eA==","Version":1},"lastAccess":"0"}`, `"zz":null`, `"zz":{"secret":null}`, `"zz":{"lastAccess":"7"}`, `"zz":{"secret":{"Value":"eA==","Version":1},"lastAccess":7}`} {
+			for _, n := range pool {
+				bads = append(bads, []byte(fmt.Sprintf(`{%q:{"secret":{"Value":"c3RhbGU=","Version":9},"lastAccess":"%d"},%s}`, n, w.clock, neighbour)))
+			}
+		}
 		w.cache = &recCache{data: pick(r, bads)}
 		cacheIface = w.cache
 	case "readfail":
